@@ -513,7 +513,30 @@ func cmdCheck(args []string) {
 				cases = append(cases, nativeCase{Harness: h.Name, Model: r.Model})
 			}
 			outs, err := nat.run(pkg, cases, canaryEnv(*canary)...)
-			if err != nil {
+			if err != nil && len(outs) < len(cases) && !*canary {
+				// The real build died (fatal error, stack overflow, os.Exit)
+				// on a path model for which the engine predicted an orderly
+				// end. Whatever the engine thought, the native twin is the
+				// real code: a process that dies under a harness is a
+				// violation, confirmed once more by a run on its own.
+				dead := cases[len(outs)]
+				one, err1 := nat.run(pkg, []nativeCase{dead})
+				if err1 != nil && len(one) == 0 {
+					replayN++
+					rf := filepath.Join(verifDir, "replay", fmt.Sprintf("%s-%s-%d.json", *prop, h.Name, replayN))
+					b, _ := json.MarshalIndent(map[string]interface{}{
+						"property": *prop, "harness": h.Name, "package": pkg, "site": "native.crash", "inputs": dead.Model,
+						"native_panic": "the native twin's process died: " + tail(err1.Error(), 600),
+					}, "", " ")
+					os.WriteFile(rf, b, 0644)
+					cr.violations = append(cr.violations, fmt.Sprintf("VIOLATION property=%s replay=%s", *prop, rf))
+					fmt.Printf("  counterexample: harness=%s site=native.crash (the process died) inputs=%v\n", h.Name, dead.Model)
+				} else {
+					cr.internal = append(cr.internal, h.Name+": native validation: "+err.Error())
+				}
+				outs = nil
+				sel = nil
+			} else if err != nil {
 				cr.internal = append(cr.internal, h.Name+": native validation: "+err.Error())
 			}
 			for k, o := range outs {
